@@ -12,31 +12,47 @@ Fixpoint le_enc (n : nat) (v : N) : list byte :=
   | S n' => (v mod 256) :: le_enc n' (v / 256)
   end.
 
+(* the inverse reading: an unsigned loaded from its bytes in memory *)
+Fixpoint le_dec (l : list byte) : N :=
+  match l with
+  | [] => 0
+  | b :: r => b + 256 * le_dec r
+  end.
+
 Definition mstate := smap (list byte).
 Definition mem_empty : mstate := [].
 
 Definition mem_fetch (b : list byte) : fres := FBytes b.
 
-(* Result of a step: None = the call does not return (non-terminating nearest loop) *)
-Definition mem_step (st : mstate) (o : op) : option (mstate * out) :=
+(* loc = itr->second.data() read as two unsigned:  sender = loc[0]; target = loc[1]; *)
+Definition dec_ctl (b : list byte) : N * N := (le_dec (firstn 4 b), le_dec (firstn 4 (skipn 4 b))).
+
+(* [fixed] = true: the code since commit 760121b ("MemoryPersister keeps and returns the last
+   control record"); false: the code before it (kept for the witness c26_mem_orig_refuted).
+   Result of a step: None = the call does not return (non-terminating nearest loop) *)
+Definition mem_step_gen (fixed : bool) (st : mstate) (o : op) : option (mstate * out) :=
   match o with
   | OCtlPut s t =>
     (* const unsigned arr[2] { sender_seqnum, target_seqnum };
+       _store.erase(0);                                   -- since 760121b
        return _store.insert({0, f8String(bytes of arr, sizeof(arr))}).second;
-       insert does not replace: a second control put changes nothing and returns false *)
-    let '(m, b) := sinsert 0 (le_enc 4 s ++ le_enc 4 t) st in Some (m, RBool b)
+       insert does not replace: before the repair a second control put changed nothing and
+       returned false *)
+    let st0 := if fixed then serase 0 st else st in
+    let '(m, b) := sinsert 0 (le_enc 4 s ++ le_enc 4 t) st0 in Some (m, RBool b)
   | OPut seq what =>
     (* return !seqnum ? false : _store.insert({seqnum, what}).second; *)
     if seq =? 0 then Some (st, RBool false)
     else let '(m, b) := sinsert seq what st in Some (m, RBool b)
   | OCtlGet =>
-    (* const unsigned *loc(reinterpret_cast<const unsigned *>(&itr->second));
-       sender_seqnum = *loc++; target_seqnum = *loc;
-       &itr->second is the address of the std::string OBJECT, not of its characters: the two
-       values are the halves of the string's data pointer -- unrelated to anything stored *)
     match sfind 0 st with
     | None => Some (st, RCtl None)
-    | Some _ => Some (st, RCtlUnspec)
+    | Some b =>
+      if fixed then Some (st, RCtl (Some (dec_ctl b)))     (* reads itr->second.data() *)
+      else
+        (* before the repair: reinterpret_cast<const unsigned *>(&itr->second), the address of the
+           std::string OBJECT: the two values are the halves of the string's data pointer *)
+        Some (st, RCtlUnspec)
     end
   | OGet seq =>
     if seq =? 0 then Some (st, RBytes None) else Some (st, RBytes (sfind seq st))
@@ -54,17 +70,22 @@ Definition mem_step (st : mstate) (o : op) : option (mstate * out) :=
   | OReopen => Some (st, RBool true)      (* not an operation of this persister: no-op *)
   end.
 
-Fixpoint mem_run (st : mstate) (ops : list op) : option (list out) :=
+Definition mem_step := mem_step_gen true.
+
+Fixpoint mem_run_gen (fixed : bool) (st : mstate) (ops : list op) : option (list out) :=
   match ops with
   | [] => Some []
   | o :: r =>
-    match mem_step st o with
+    match mem_step_gen fixed st o with
     | None => None
-    | Some (st', x) => match mem_run st' r with None => None | Some xs => Some (x :: xs) end
+    | Some (st', x) => match mem_run_gen fixed st' r with None => None | Some xs => Some (x :: xs) end
     end
   end.
+Definition mem_run := mem_run_gen true.
 
-Definition mem_outputs (ops : list op) : option (list out) := mem_run mem_empty ops.
+(* the current tree / the tree before 760121b *)
+Definition mem_outputs (ops : list op) : option (list out) := mem_run_gen true mem_empty ops.
+Definition mem_outputs_orig (ops : list op) : option (list out) := mem_run_gen false mem_empty ops.
 
 (* ---- hypotheses of the theorems, as executable predicates on the operations ---- *)
 Definition LIM : N := 2147483648.           (* 2^31 *)
@@ -87,14 +108,3 @@ Definition op_zero_free (o : op) : bool :=
   | _ => true
   end.
 Definition zero_free (ops : list op) : bool := forallb op_zero_free ops.
-
-(* the memory persister's control record is written at most once and never read back
-   ([present]: a control record has been written) *)
-Fixpoint mem_ctl_ok_from (present : bool) (ops : list op) : bool :=
-  match ops with
-  | [] => true
-  | OCtlPut _ _ :: r => negb present && mem_ctl_ok_from true r
-  | OCtlGet :: r => negb present && mem_ctl_ok_from present r
-  | _ :: r => mem_ctl_ok_from present r
-  end.
-Definition mem_ctl_ok (ops : list op) : bool := mem_ctl_ok_from false ops.
